@@ -283,6 +283,7 @@ def run_index(seed, idx, tier):
     sim = rng.weighted(SIMS)
     out = []
     subject = gen.finalise(gen.gen_subject(rng.randrange(2**62), sim, shots=rng.randrange(1, 17)))
+    subject["build"] = rng.weighted([("list", 6), ("context-all", 2), ("context-empty", 2)])
 
     def emit(sc):
         rec = judge(sc)
